@@ -65,6 +65,14 @@ CLAIMED = {
         note=E2_NOTE + " " + E3T_NOTE,
         engine="E2+E3-T+E3-A",
     ),
+    "C07": dict(
+        category="translation_validation",
+        technique="differential execution of the same enumerated programs under both macro names (real macro vs real macro), token-level comparison of the real expansions (rustc -Zunpretty=expanded) of alias and long name, and equality of the outcome sets explored by the schedule/wake-up explorers",
+        text="Every enumerated program (depth profiles with every failure subset, typed chains) is instantiated under both names of each plain/spawn/alias pair and compared directly; the real expansions of the four aliases are compared token-for-token with those of the long names over a feature corpus (and with join_impl called as a library, which binds the E1 engine to the real proc-macros); under the controlled schedulers the outcome set of an alias equals the one of its long name.",
+        design_ref="DESIGN.md §4 C07",
+        note=E2_NOTE + " " + E3T_NOTE + " -Zunpretty=expanded (RUSTC_BOOTSTRAP=1 on the pinned stable toolchain) is trusted as printer.",
+        engine="E2+E1+E3-T+E3-A",
+    ),
     "C08": dict(
         category="model_checking",
         technique="stateless model checking of the generated code under a controlled thread scheduler: all orders of visible operations, invariants on thread identity/liveness in every execution",
@@ -80,6 +88,14 @@ CLAIMED = {
         design_ref="DESIGN.md §4 C09, §2.6",
         note=E3A_NOTE,
         engine="E3-A",
+    ),
+    "C10": dict(
+        category="exploration",
+        technique="exhaustive marker counting over all operator-instance chains through join_impl (each user operand exactly once in the expansion) + differential runs over a move-only drop-logging token type and capture-dense programs",
+        text="Every chain over the 70 operator instances up to the bound (plain/block/closure operands, second branch with let/steps/capture/handler) in 8 configs: every operand marker occurs exactly once in the output; depth profiles over a move-only, non-Clone, drop-logging token in all 12 macros with every failure subset: events, created/dropped counts and dropped-id multiset equal the reference; typed chains and capture-dense chains: every callback/capture exactly as often as the reference.",
+        design_ref="DESIGN.md §4 C10",
+        note=E2_NOTE,
+        engine="E1+E2",
     ),
     "C11": dict(
         category="exploration",
@@ -121,6 +137,14 @@ CLAIMED = {
         note="Trusted: syn (output validity = parses as syn::Expr), the reference recogniser (conservative: answers 'unsure' outside the confident grammar). Inputs outside the alphabet are not covered.",
         engine="E1",
     ),
+    "C19": dict(
+        category="exploration",
+        technique="bounded enumeration of witness programs: allocation counting under a counting global allocator, move-only / !Send / borrowing programs compiled through the real macros and compared with the reference",
+        text="Int-only depth profiles in join!/try_join! run under a counting allocator (allocation-free iff the reference is); the same shapes over a move-only token (12 macros), Rc values (non-spawning macros, incl. long steps) and borrows of caller locals must compile and agree with the reference. A bounded check of a universal type-level claim: it refutes an added Clone/Send/'static bound or a hidden allocation for these shapes only.",
+        design_ref="DESIGN.md §4 C19, §6",
+        note=E2_NOTE,
+        engine="E2",
+    ),
     "C20": dict(
         category="model_checking",
         technique="exhaustive enumeration of expansion histories up to depth 3 in one process + stateless model checking of two concurrent expansions under the baton scheduler at the verif_hooks yield points (preemption-bounded)",
@@ -136,6 +160,14 @@ CLAIMED = {
         design_ref="DESIGN.md §4 C16",
         note=E2_NOTE,
         engine="E2+E1",
+    ),
+    "C17": dict(
+        category="exploration",
+        technique="bounded enumeration of dense index layouts (two-digit branch/action/step/operand indices, mixed Process/Err operators at mirrored positions) and of all ordered macro pairs in four nesting positions, real macros vs the recursively applied reference",
+        text="Dense programs with a distinct-constant capture on every action for (branches, actions) over {2,11,12}^2 (thorough 24), 13-step branches, 13/24 thread branches, fold captures; every ordered pair of the 12 macros with the inner one as direct operand, operand value, inside a capture and inside a handler; value and trace must equal the reference.",
+        design_ref="DESIGN.md §4 C17",
+        note=E2_NOTE,
+        engine="E2",
     ),
     "C18": dict(
         category="fault_enumeration",
